@@ -20,7 +20,7 @@
    \
   impl.pendingConnects.present = nondet_bool(); impl.readModes.present = nondet_bool(); impl.receiveBuffers.present = nondet_bool(); \
   impl.observers.present = nondet_bool(); impl.observerToSession.present = nondet_bool(); impl.sessionData.present = nondet_bool(); \
-  impl.onCloseCb.set = nondet_bool(); impl.shuttingDown = nondet_bool(); impl.observers.wval.w.cb_set = nondet_bool(); impl.sessionData.wval.cleanup_set = nondet_bool(); \
+  impl.onCloseCb.set = nondet_bool(); impl.shuttingDown = nondet_bool(); impl.observers.wval.w.cb_set = nondet_bool(); impl.sessionData.wval.cleanup = nondet_bool(); \
   wop.done = nondet_bool(); wop.result.ok = nondet_bool(); wop.abandoned = nondet_bool(); \
   wbuf.hasData = nondet_bool(); wbuf.closed = nondet_bool(); wbuf.flushing = nondet_bool(); wbuf.overflow = nondet_bool(); \
   __CPROVER_assume(impl.readModes.wval <= ReadMode_Disabled && wbuf.cv.n_all < 1000 && wop.cv.n_one < 1000); \
@@ -37,7 +37,7 @@
    \
   size_t n0 = impl0.observers.present ? vec0.n : 0; \
   bool w_live = impl0.observers.present && GI < vec0.n;                  \
-  bool cleanup_due = impl0.sessionData.present && ud0.cleanup_set && ud0.data != 0;
+  bool cleanup_due = impl0.sessionData.present && ud0.cleanup && ud0.data != 0;
 
 
 /* ---- steps 1-5 (block target Impl_onClose_fanout): connectSync suppression, global close callback, observers ---- */
@@ -165,4 +165,63 @@ void h_onclose(void)
   if (G_w_calls == 1) { IORA_CANARY("h_onclose: witness observer called"); }
   if (cleanup_due) { IORA_CANARY("h_onclose: cleanup"); }
   if (G_obs_calls >= 2 && cleanup_due && impl0.onCloseCb.set) { IORA_CANARY("h_onclose: global, several observers, cleanup"); }
+}
+
+/* ---- Transport::observe / unobserve ("still-registered" and "registration order" are defined by these two) ---- */
+void h_observe(void)
+{
+  OC_SETUP
+  iora_fn cb; cb.set = nondet_bool();
+  __CPROVER_assume(impl.nextObserverId < (uint64_t)-1 && impl.observers.wval.n < ((size_t)1 << 40));
+  /* ids handed out so far are below the counter: the new id is not yet in the reverse index */
+  __CPROVER_assume(!(impl.observerToSession.present && GOID >= impl.nextObserverId));
+  Impl impl1 = impl;
+  uint64_t id = Transport_observe(self, sid, cb);
+  IORA_CANARY("h_observe: returns");
+  __CPROVER_assert(LOCKFREE(&impl), "LK5 no Transport lock held at return");
+  __CPROVER_assert(id == impl1.nextObserverId && impl.nextObserverId == id + 1, "OB1 observer ids are handed out strictly increasing (never reused)");
+  __CPROVER_assert(GOID == id ? (impl.observerToSession.present && impl.observerToSession.wval == sid) : (impl.observerToSession.present == impl1.observerToSession.present && impl.observerToSession.wval == impl1.observerToSession.wval), "OB2 the reverse index maps the new id to sid; other ids untouched");
+  if (sid != W) { IORA_CANARY("h_observe: other session"); __CPROVER_assert(impl.observers.present == impl1.observers.present && impl.observers.wval.n == vec0.n && impl.observers.wval.w.id == vec0.w.id, "F3b observers of every other session untouched"); return; }
+  size_t n1 = impl1.observers.present ? vec0.n : 0;
+  __CPROVER_assert(impl.observers.present && impl.observers.wval.n == n1 + 1, "OB3 exactly one element is added to the session's list");
+  __CPROVER_assert(GI != n1 || (impl.observers.wval.w.id == id && impl.observers.wval.w.cb_set == cb.set), "OB4 ... at the END (registration order == vector order), holding this id and callback");
+  __CPROVER_assert(!(GI < n1) || (impl.observers.wval.w.id == vec0.w.id && impl.observers.wval.w.cb_set == vec0.w.cb_set), "OB5 earlier registrations keep their position");
+  if (!impl1.observers.present) { IORA_CANARY("h_observe: first observer of the session"); }
+}
+void h_unobserve(void)
+{
+  OC_SETUP
+  uint64_t id = nondet_u64();
+  __CPROVER_assume(impl.observers.wval.n <= ((size_t)1 << 40));
+  Impl impl1 = impl;
+  bool r = Transport_unobserve(self, id);
+  IORA_CANARY("h_unobserve: returns");
+  __CPROVER_assert(LOCKFREE(&impl), "LK5 no Transport lock held at return");
+  if (id != GOID)
+  {
+    IORA_CANARY("h_unobserve: other id");
+    __CPROVER_assert(impl.observerToSession.present == impl1.observerToSession.present && impl.observerToSession.wval == impl1.observerToSession.wval, "F3 reverse-index entries of other ids untouched");
+    return;
+  }
+  __CPROVER_assert(r == impl1.observerToSession.present, "UN1 true iff the id was registered");
+  if (!impl1.observerToSession.present)
+  {
+    IORA_CANARY("h_unobserve: unknown id");
+    __CPROVER_assert(impl.observers.present == impl1.observers.present && impl.observers.wval.n == vec0.n && impl.observers.wval.w.id == vec0.w.id && !impl.observerToSession.present, "UN2 unknown id: nothing is modified");
+    return;
+  }
+  __CPROVER_assert(!impl.observerToSession.present, "UN3 the id leaves the reverse index");
+  if (impl1.observerToSession.wval == W)
+  {
+    IORA_CANARY("h_unobserve: observer of the witness session");
+    __CPROVER_assert(!(impl.observers.present && GI < impl.observers.wval.n) || impl.observers.wval.w.id != id, "UN4 no element of the session's list carries the id any more (so the close fan-out will not call it)");
+    __CPROVER_assert(!impl1.observers.present || (impl.observers.wval.n <= vec0.n && vec0.n - impl.observers.wval.n <= 1), "UN5 at most that one element is removed");
+    __CPROVER_assert(!impl.observers.present || impl.observers.wval.n > 0, "UN6 an emptied list is removed from the map");
+    __CPROVER_assert(!(impl1.observers.present && GI < vec0.n && vec0.w.id != id && impl.observers.wval.n == vec0.n) || (impl.observers.wval.w.id == vec0.w.id), "UN7 nothing removed: elements keep their position");
+  }
+  else
+  {
+    IORA_CANARY("h_unobserve: observer of another session");
+    __CPROVER_assert(impl.observers.present == impl1.observers.present && impl.observers.wval.n == vec0.n && impl.observers.wval.w.id == vec0.w.id, "F3b the witness session's list is untouched");
+  }
 }
